@@ -242,7 +242,7 @@ func TestVerifC16Stream(t *testing.T) {
 	readOps := []string{"ReadPacket", "ReadExact", "ReadAvailable", "ReadExactZeroCopy"}
 	writeOps := []string{"WritePacket", "WritePacketCompressed", "WriteExact", "WritePacketRateLimited"}
 
-	for done := 0; done < n && run.Violations() < 20; done += batch {
+	for done := 0; done < n && run.Violations() < 20 && run.Counter("leak_violations") < 3; done += batch {
 		snap := vk.SnapshotGoroutines()
 		for b := 0; b < batch && done+b < n; b++ {
 			trial := done + b
@@ -481,8 +481,17 @@ func TestVerifC16Stream(t *testing.T) {
 		}
 		if l := snap.Leaked(scope, nil, 3*time.Second); len(l) > 0 {
 			sum := vk.FrameSummary(l)
-			run.Violation("C16:stream|goroutine-left|"+sum[0], map[string]any{"batch_start": done, "leaked": len(l), "frames": sum, "stack": l[0].Stack})
+			run.Violation("C16:stream|goroutine-left|"+c16LeakFn(sum[0]), map[string]any{"batch_start": done, "leaked": len(l), "frames": sum, "stack": l[0].Stack})
+			run.Count("leak_violations", 1) // after 3 the test stops: every further trial would wait the full poll interval
 		}
 		run.Count("leak_checks", 1)
 	}
+}
+
+// c16LeakFn strips the (varying) goroutine state from a vk.FrameSummary entry.
+func c16LeakFn(s string) string {
+	if i := strings.Index(s, "tunnox-core/"); i >= 0 {
+		return s[i:]
+	}
+	return s
 }
